@@ -22,7 +22,7 @@ OPEN = {
     "C03": ["C03_roundtrip_parsed is stated for parse results with durations below 2^20 s and plain unquoted SCTE35-* values (media_small: decidable, no reference to the float conversions); outside it (a duration of 12 days or more, an unquoted SCTE35-* value with a comma or quote, which the writer cannot express) the round trip is sampled by the correspondence check only",
             "byte-identical second serialisation and the order inside a key list: FALSE in general (known findings D20, D9-K1); keys are compared as sets, a map's keys are the reader's keys"],
     "C04": ["C04_roundtrip carries floats_master p (decidable): it holds for every TIME-OFFSET the reader accepts and every FRAME-RATE with at most three decimals below 8192 (C04_float_hypotheses); a FRAME-RATE text with more decimals parses to a value the {:.3} writer cannot reproduce -- a property of the writer's format, sampled by the correspondence check; C04_roundtrip_parsed discharges the TIME-OFFSET part for parse results (threaded through the master parser) and keeps rates_ok p as the only hypothesis"],
-    "C05": ["C05_cost: cost_parse s <= c1*|s| + c2*|items s|*K s -- no cost model was built; time scaling is MEASURED in the thorough tier (five input families at n and 4n, evidence field streams.time_scaling), not proved"],
+    "C05": ["C05_cost for the WHOLE parser as a function of the input length: not proved -- no cost model of the tokenizer, the line splitter and the float conversions was built; what is proved is the part that is not constant per line, the key machinery (C05_keys_bounded, C05_key_work_linear, C05_key_work_quadratic: linear when the key formats are bounded, quadratic otherwise); wall-clock scaling is MEASURED in the thorough tier (five input families at n and 4n, evidence field streams.time_scaling)"],
     "C12": ["C12_restyle as ONE theorem over whole playlists: forall sty1 sty2 a, parse (render sty1 a) = parse (render sty2 a) -- proved per transformation: CRLF, blank lines, line padding, comments, redundant version tags, unknown tags (arbitrary text / item lists), and, for every attribute-list parser, any attribute order + any padding + unknown attributes (C12_any_attribute_syntax); the relative order of playlist-level tags and of the non-key tags of a segment is C12_tag_order (item level, media playlists; EXT-X-KEY and DISCONTINUITY-SEQUENCE excluded because they are position dependent); for master playlists the five lists are independent by construction (C02_source_order)"],
     "C16": ["C16_slide is proved for the restatement the WRITER produces for the slid value (keys and maps re-announced by the library itself); a server that restates tags differently (e.g. repeats all keys in another order) is covered by C06/C12 only"],
     "C18": ["FRAME-RATE values that are NOT the nearest f32 to a number with at most three decimals (or are 8192 and above): the {:.3} writer prints a different number, so ufloat_rt is false by design; for every three-decimal rate below 8192 it is a theorem (C18_frame_rate_3dec), as are the types' own text forms for every finite f32 and every Duration below 2^20 s (C18_f32_text, C18_uf32_text, C18_duration_text)"],
